@@ -3,8 +3,9 @@
    threads, any number of steps, any schedule, any value function F), closed by [exact].
    Not covered (runtime, trusted): the Go memory model for plain accesses beyond what C06_drf gives (no
    conflicting plain accesses under sequentially consistent atomics/mutexes), the scheduler, sync.Pool internals. *)
-From Coq Require Import List NArith Arith Lia Bool.
+From Coq Require Import String List NArith ZArith Arith Lia Bool.
 From Verif Require Import Gen.Cache C06.Model C06.ProofsList C06.Proofs.
+From Verif Require Import Gen.SharedState C06.Shared C06.ProofsShared.
 From Verif Require Gen.Reset C12.Model C12.Proofs.
 Import ListNotations.
 
@@ -87,6 +88,37 @@ Print Assumptions C06_pool_reset_complete.
 Example C06_pool_leftover_nonvacuous :
   exists s, qreachable s /\ qowner s 0 = Some 1 /\ qtaint s 0 = Some 0 /\ qready s 0 = false.
 Proof. exact pool_leftover_lemma. Qed.
+
+(* the package-level pooled scratch objects (poolForTypeInfoLoad -> typeInfoLoad used by every TypeInfos.load of the
+   process, pool4SFIs -> trie nodes; Gen/SharedState.v, read off the current source) come out of the pool as their last
+   user - any goroutine, any Handle, any TypeInfos - left them: after the reset of the current source, whatever was
+   left, a user observes exactly what it observes of a new object (every declared field is assigned or cleared by
+   reset, except kept storage that is never read before being overwritten), and every site that takes an object out
+   of a pool resets it before it is put back *)
+Theorem C06_scratch_reset_restores : forall p, In p pooled_scratch ->
+  (forall s, sview_of p (sreset (ps_reset p) s) = sview_of p snew) /\
+  (ps_reset_between_get_put p = true /\ (1 <= ps_get_sites p)%nat).
+Proof. exact scratch_reset_lemma. Qed.
+Print Assumptions C06_scratch_reset_restores.
+
+(* the reset has to be complete: one skipped field of typeInfoLoad lets the last user's state through *)
+Example C06_scratch_partial_reset_nonvacuous :
+  exists p s, In p pooled_scratch /\ ps_type p = "typeInfoLoad"%string /\
+              sview_of p (sreset ["sfis"%string; "sfiNames"%string] s) <> sview_of p snew.
+Proof. exact scratch_partial_lemma. Qed.
+
+(* package-level variables that are views of package-level arrays (var zeroByteSlice = oneByteArr[:0:0], handed out as
+   the empty non-nil []byte of every decoder): through an empty one no cell of the shared array can be addressed by
+   any holder (capacity 0), so results of different goroutines never share writable memory through it *)
+Theorem C06_shared_views_unwritable :
+  (forall v, In v shared_views -> sv_len v = 0%Z -> forall i, addressable v i = false) /\
+  (exists v, In v shared_views /\ sv_len v = 0%Z).
+Proof. exact shared_views_lemma. Qed.
+Print Assumptions C06_shared_views_unwritable.
+
+(* with capacity 1 the cell would be writable by every holder *)
+Example C06_shared_view_cap1_nonvacuous : addressable (mkSV "zeroByteSlice" "oneByteArr" 0 1) 0 = true.
+Proof. exact shared_view_cap1_lemma. Qed.
 
 (* what the translator read off the current source (all loaders, generic and monomorphised; every sync.Pool user returns an object only after its last use — the code side of the contract C06_pool_exclusive assumes): the protocol the
    model is a model of.  Breaks when the code changes shape. *)
